@@ -1646,7 +1646,11 @@ fn evaluate_scalar_func(
                     } else {
                         let s = str_arr.value(i);
                         let sub = substr_arr.value(i);
-                        Some(s.find(sub).map(|pos| pos as i64 + 1).unwrap_or(0))
+                        Some(
+                            s.find(sub)
+                                .map(|pos| s[..pos].chars().count() as i64 + 1)
+                                .unwrap_or(0),
+                        )
                     }
                 })
                 .collect();
